@@ -440,6 +440,21 @@ theorem float_digits_read_back : Statement_float_digits_read_back := by
   exact ⟨D, s, hrb', hD, h2, h3, by rw [h2]; exact rstrip0_ne_nil (by rw [num_digits]; exact hD),
     by rw [h2]; exact allDigits_rstrip0 (allDigits_digits D)⟩
 
+/-- `Literal(float)` → lexical form → `float(str)` (the converter of xsd:double and xsd:float): the form is in the XSD lexical
+    space and reads back as the very same double — every finite double in every layout `repr` uses (fixed, exponent,
+    `.0` appended), both zeros, ±INF; NaN reads back as NaN.  The only thing not proved is that the 17-digit search
+    always finds digits (`floatToXsd v = some s` is a hypothesis; the driver would answer `raise`, never observed). -/
+def Statement_float_roundtrip : Prop :=
+  ∀ v s, v.canonical → floatToXsd v = some s → Spec.doubleLex s = true ∧ pyFloat s = some v
+
+theorem float_roundtrip : Statement_float_roundtrip := by
+  intro v s hc h
+  refine ⟨doubleLex_floatToXsd h, ?_⟩
+  cases v with
+  | nan => simp only [floatToXsd, Option.some.injEq] at h; subst h; decide +kernel
+  | inf neg => cases neg <;> (simp only [floatToXsd, Option.some.injEq] at h; subst h; decide +kernel)
+  | fin neg m e => exact pyFloat_floatToXsd hc h
+
 /-! ## Non-vacuity: the hypotheses are met by concrete, non-trivial instances -/
 
 example : XsdTz (some (-50400000000)) ∧ ¬ XsdTz (some 1000000) ∧ TzOk (some 86340000000) := by
